@@ -52,6 +52,7 @@ func TestProp(t *testing.T) {
 	typeTasks(r, add)
 	decodeOnlyTasks(r, add)
 	probeTasks(r, add)
+	constructorTasks(r, add)
 	opsTasks(t, r, add)
 	lengthTasks(r, add)
 	flagTasks(r, add)
@@ -68,6 +69,9 @@ func TestProp(t *testing.T) {
 	for _, k := range []string{"op_ticket_decrypt_checked", "op_apreq_verify_checked", "op_asrep_decrypt_checked", "op_asrep_verify_checked", "op_tgsrep_decrypt_checked", "op_krbpriv_decrypt_checked", "op_newticket_ref_decoded", "op_krbpriv_encrypt_ref_decoded"} {
 		r.Require(k, 12)
 	}
+	r.Require("constructor_krberror_conformant", 10)
+	r.Require("constructor_authenticator_conformant", 10)
+	r.Require("constructor_asreq_conformant", 10)
 	r.Require("len_equal", 65000)
 	r.Require("apptag_equal", 200)
 	r.Require("flag_bits_checked", 32)
